@@ -549,14 +549,15 @@ def u_getdescriptors(I):
     # the two parts are count maps (defaultdict(int), as the real functions build them) over names from ONE name space: a correction descriptor may carry
     # the name of a group (shipped: centre 'CC' and descriptor 'CC' in GRWSurface2018 and four more schemes; a remap may also target a descriptor name)
     from pyvc.engine import DefaultDict
-    dname = ['Cis', 'C(C)(H)3'][ctx.choose([True, True], 'descriptor name: its own / that of a group')]
+    dname = ['Cis', 'C(C)(H)3', None][ctx.choose([True, True, True], 'descriptor name: its own / that of a group / (no group and no descriptor at all)')]
+    nothing = dname is None          # every atom has a centre named 'none' (O=O, a bare metal atom, H on a metal): the decomposition is EMPTY, not an error
 
     def cmap(items):
         d_ = DefaultDict(items)
         d_.factory = Builtin('int', lambda I2, a2, k2: 0)
         return d_
-    W_.contracts[(SCHEME, 'GroupAdditivityScheme._AssignGroup')] = lambda I_, a, k: (seen.setdefault('group', a[1]), cmap({'C(C)(H)3': g1, 'C(C)2(H)2': 1}))[1]
-    W_.contracts[(SCHEME, 'GroupAdditivityScheme._AssignDescriptor')] = lambda I_, a, k: (seen.setdefault('desc', tuple(a[1:])), cmap({dname: d1}))[1]
+    W_.contracts[(SCHEME, 'GroupAdditivityScheme._AssignGroup')] = lambda I_, a, k: (seen.setdefault('group', a[1]), cmap({} if nothing else {'C(C)(H)3': g1, 'C(C)2(H)2': 1}))[1]
+    W_.contracts[(SCHEME, 'GroupAdditivityScheme._AssignDescriptor')] = lambda I_, a, k: (seen.setdefault('desc', tuple(a[1:])), cmap({} if nothing else {dname: d1}))[1]
     o = Obj(cls, {}, 'param')
     arg = I.fresh('smiles', 'str') if form == 'string' else mk('input')
     out = run_target(I, SCHEME, 'GroupAdditivityScheme.GetDescriptors', [arg], self_obj=o)
@@ -573,8 +574,9 @@ def u_getdescriptors(I):
         clean = seen.get('desc', (None, None))[1]
         ps.append(('the hydrogen-free copy handed to the SMILES-based descriptors is defined and denotes the input molecule',
                    z3.BoolVal(isinstance(clean, Obj) and clean.fields.get('tag') in ('parsed', 'copy') and clean.fields.get('from') is arg)))
-        want = {'C(C)(H)3': g1, 'C(C)2(H)2': z3.IntVal(1)}
-        want[dname] = (want[dname] + d1) if dname in want else d1
+        want = {} if nothing else {'C(C)(H)3': g1, 'C(C)2(H)2': z3.IntVal(1)}
+        if not nothing:
+            want[dname] = (want[dname] + d1) if dname in want else d1
         ps.append(('every name is counted once per group atom of that name plus once per match of the correction descriptor of that name (nothing is lost when a descriptor carries the name of a group)',
                    z3.And([z3.BoolVal(isinstance(r, dict) and set(r) == set(want))] + [z3_of(r[n]) == want[n] for n in want if isinstance(r, dict) and n in r])))
         UNS, ZERO = BOND_CODES['UNSPECIFIED'], BOND_CODES['ZERO']
